@@ -20,7 +20,8 @@ OBLIGATIONS = ["maxsum_factor_marginal_partial", "maxsum_select_value_partial", 
 N_QUICK, N_THOROUGH = 250, 3000
 PARALLEL = 8
 SHARD = 20
-RULE = ("6% large-magnitude forests (integer costs 10^5..2^24, sign following the objective; exact in binary64); "
+RULE = ("7% A-Max-Sum forests that, once quiescent, go through 4-7 global pause/resume rounds (oracle only); "
+        "6% large-magnitude forests (integer costs 10^5..2^24, sign following the objective; exact in binary64); "
         "random forest-shaped factor graphs (85%; 15% with one extra cycle-closing factor, model validation only) "
         "of 1-7 variables, domain sizes 1/2/4, integer n-ary (arity 1-3) cost tables, optional integer variable "
         "costs and initial values, min and max, unique optimum enforced for the forests; algorithm maxsum "
@@ -234,12 +235,40 @@ def _gen_large(rng):
     return c
 
 
+def _gen_pause(rng):
+    """pause/resume stream (7 %): A-Max-Sum forests (stability 0, damping 0, start leafs_vars / all, no initial
+    values, unique optimum) that are run to quiescence and then go through 4-7 GLOBAL pause / resume rounds (what the
+    orchestrator does around every repair): on resume on_pause flushes the cost tables and _prev_messages and sends
+    as for a start, so after every round the quiescent network must again select the unique optimum.  The model
+    covers the part of the run before the first pause; the rounds are checked by the brute-force oracle only."""
+    nv, doms, facs = _gen_graph(rng, True)
+    vs = [dict(dom=doms[i], unary=[rng.randint(0, 9) for _ in range(doms[i])] if rng.random() < 0.4 else None, init=None)
+          for i in range(nv)]
+    fs = []
+    for sc in facs:
+        size = 1
+        for v in sc:
+            size *= doms[v]
+        fs.append(dict(scope=sc, tab=[rng.randint(0, 9) for _ in range(size)]))
+    c = dict(algo="amaxsum", mode=rng.choice(["min", "max"]), vars=vs, facs=fs, stab="0", damp="0",
+             dnodes=rng.choice(["both", "none"]), start=rng.choice(["leafs_vars", "all"]), seed=rng.randrange(10**9),
+             steps=None, forest=True, pause_rounds=rng.randint(4, 7))
+    if not fs or len(_brute(c)[0]) != 1:
+        return None
+    return c
+
+
 def gen(rng, n, tier):
     cases = []
     while len(cases) < n:
         r0 = rng.random()
         if 0.04 <= r0 < 0.10:
             c = _gen_large(rng)
+            if c is not None:
+                cases.append(c)
+            continue
+        if 0.10 <= r0 < 0.17:
+            c = _gen_pause(rng)
             if c is not None:
                 cases.append(c)
             continue
@@ -473,9 +502,39 @@ def run_impl(c):
                 silent.append([nb, name])
     values = {n: comps[n].current_value for n in sorted(comps) if n[0] == "v"}
     cycles = [[n, comps[n].current_cycle] for n in sorted(comps)] if sync else []
-    return dict(sched=drv.schedule, log=log, sends=sends, sels=sels, values=values, cycles=cycles,
-                inflight=inflight, complete=complete, frozen=frozen, silent=sorted(silent), policy=policy,
-                started=sorted(drv.started), edge_bad=[] if sync else _edge_consistency(comps, drv, MS))
+    res = dict(sched=list(drv.schedule), log=list(log), sends={n: list(v) for n, v in sends.items()},
+               sels={n: list(v) for n, v in sels.items()}, values=values, cycles=cycles,
+               inflight=inflight, complete=complete, frozen=frozen, silent=sorted(silent), policy=policy,
+               started=sorted(drv.started), edge_bad=[] if sync else _edge_consistency(comps, drv, MS))
+    if c.get("pause_rounds") and not sync and complete:
+        ne = len(drv.events)
+        res["pause_values"] = _pause_rounds(c, comps, drv, rng)
+        res["pause_raises"] = [[e[1], e[2], e[3]] for e in drv.events[ne:] if e[0] == "raise"]
+    return res
+
+
+def _pause_rounds(c, comps, drv, rng):
+    """global pause / resume rounds on the quiescent network (driver actions P / R, random orders, a few deliveries
+    between the resumes); per round: the selected values and whether the network is quiescent again"""
+    out = []
+    names = sorted(comps)
+    for _ in range(c["pause_rounds"]):
+        order = names[:]
+        rng.shuffle(order)
+        for n in order:
+            drv.do(["P", n])
+        drv.run_random(rng, max_steps=3000)
+        order = names[:]
+        rng.shuffle(order)
+        for n in order:
+            drv.do(["R", n])
+            for _k in range(rng.randint(0, 3)):
+                acts = [a for a in drv.enabled() if a[0] == "D"]
+                if acts:
+                    drv.do(rng.choice(acts))
+        drv.run_random(rng, max_steps=6000)
+        out.append([{n: comps[n].current_value for n in names if n[0] == "v"}, not drv.enabled()])
+    return out
 
 
 def _edge_consistency(comps, drv, MS):
@@ -559,6 +618,18 @@ def oracle(c, o):
     if list(opt) != got:
         return "%s %s (stability %s, start_messages %s): selected %s, unique optimum %s (cost %s)" % (
             c["algo"], c["mode"], c["stab"], c["start"], got, list(opt), best)
+    # global pause / resume rounds: every resume flushes the tables and restarts the exchange, so the quiescent
+    # network must select the unique optimum again after every round (hypotheses as for amaxsum_tree_exact)
+    if "pause_values" in o and async_theorem_params(c) and all(v["init"] is None for v in c["vars"]):
+        if o.get("pause_raises"):
+            return "pause/resume: handler raised %s" % o["pause_raises"][0]
+        for r, (vals, quiet) in enumerate(o["pause_values"]):
+            got = [vals[vname(i)] for i in range(len(c["vars"]))]
+            if not quiet:
+                return "pause/resume round %d: the network is not quiescent after 6000 actions" % (r + 1)
+            if got != list(opt):
+                return "pause/resume round %d of %s %s (start_messages %s): selected %s, unique optimum %s" % (
+                    r + 1, c["algo"], c["mode"], c["start"], got, list(opt))
     return None
 
 
@@ -659,6 +730,9 @@ def histogram(cases, obs):
         inc("nvars_%d" % len(c["vars"]))
         if "sched" in o:
             inc("oracle_applicable" if (applicable(c, o) or exact_by_theorem(c, o)) else "model_validation_only")
+            if "pause_values" in o:
+                inc("pause_resume_cases")
+                inc("pause_resume_rounds", len(o["pause_values"]))
             if async_theorem_params(c):
                 inc("async_edge_invariant_checked")
                 used = {v for f in c["facs"] for v in f["scope"]}
